@@ -19,7 +19,7 @@ from pyvc.spec import Clause, Str, contract
 
 SAMPLES = ["/repo/tests/samples/example.odt", "/repo/tests/samples/simple_table.ods", "/repo/tests/samples/background.odp"]
 SOURCES = ["template:text", "template:spreadsheet"] + [f"{k}:{p}" for p in SAMPLES for k in ("zip", "folder", "bytesio")]
-STATES = ["untouched", "body-read", "body-edit", "meta-edit", "file-added", "all-read"]
+STATES = ["untouched", "body-read", "body-edit", "meta-edit", "file-added", "all-read", "part-deleted", "raw-set"]
 
 
 def _c14n(data):
@@ -76,6 +76,13 @@ def _prepare(doc, state, tmp):
         doc.body.append(Paragraph("unsaved edit C10"))
     elif state == "meta-edit":
         doc.meta.title = "unsaved title C10"
+    elif state == "part-deleted":
+        for p in sorted(doc.get_parts()):
+            if p.startswith("Pictures/") or p.startswith("Thumbnails/"):
+                doc.del_part(p)
+                break
+    elif state == "raw-set":
+        doc.set_part("settings.xml", b'<?xml version="1.0" encoding="UTF-8"?><raw xmlns="urn:c10"/>')
     elif state == "file-added":
         f = os.path.join(tmp, "pic.png")
         open(f, "wb").write(b"\x89PNG\r\n\x1a\n" + b"C10" * 20)
@@ -150,6 +157,7 @@ contract(
              ("clone-works", "original-untouched", "equal-at-birth", "independent", "no-crash")],
     gen=_gen, call_native=_call,
     bounded=dict(scope="sources {2 templates, 3 samples each opened from a zip path, from a folder and from BytesIO} x states "
-                       "{untouched, body read, all parts read, unsaved body edit, unsaved meta edit, file added}: 66 cases",
+                       "{untouched, body read, all parts read, unsaved body edit, unsaved meta edit, file added, a part deleted, a part replaced by raw "
+                       "bytes}: 88 cases",
                  reason="package-level cloning goes through zipfile / filesystem / deepcopy (assumed dependencies)"),
 )
